@@ -12,30 +12,30 @@ checks = {
    note="Bounded: depth/grants/alphabet as reported in evidence.bounds. Trusted: the harness drivers (HTTP round trips through httptest), the overlay clock rewrite, the deterministic random source; reference MemoryStore behind a logging proxy."),
  "C03": dict(level="model_checking", engine="SEQ", ref="DESIGN.md §5 C03",
    technique="exhaustive enumeration of all redemption-attempt sequences up to a depth on the real token endpoint, judged by a reference predicate",
-   text="All sequences of <=4 (quick) / <=5 (thorough) redemption attempts drawn from 7 attempt kinds on one code, for every enforcement x plain x client type x flow x binding configuration, run on the real provider; tokens may only be issued for a well-formed verifier that transforms to the bound challenge under the bound method. Further alphabets to smaller depths: unusual grant_type spellings and a transient PKCE-lookup failure; 8 spellings of the code itself (white space, CR/LF, prefix variants); histories whose authorization response was built while one of its storage writes failed.",
+   text="All sequences of <=4 (quick) / <=5 (thorough) redemption attempts drawn from 7 attempt kinds on one code, for every enforcement x plain x client type x flow x binding configuration, run on the real provider; tokens may only be issued for a well-formed verifier that transforms to the bound challenge under the bound method. Further alphabets to smaller depths: unusual grant_type spellings and a transient PKCE-lookup failure; 8 spellings of the code itself (white space, CR/LF, prefix variants); histories whose authorization response was built while one of its storage writes failed. Also: the PKCE lookup losing a transaction conflict (the store answers fosite.ErrSerializationFailure).",
    note="One-sided oracle exactly as the statement; verifier alphabet is the 7 listed kinds; PKCE parameters other than those listed are out of the alphabet."),
  "C04": dict(level="model_checking", engine="HIST", ref="DESIGN.md §5 C04",
    technique="explicit-state BFS over API histories of the real provider with a lock-step reference model (refresh chains, replay of any generation), global state deduplication",
-   text="Every history up to the stated depth over <=2 grants (code, hybrid, password, device, OIDC public) in which every refresh token ever issued remains presentable (by owner or foreign client), with revocation and time advance interleaved; model: one use per refresh token, rotation kills presented RT and sibling AT, reuse answers invalid_grant and kills the family, other grants untouched; every token introspected after every step. Plus: a search with JWT access tokens under RS256 (deterministic signatures; tokens minted in the same second differ only in jti), and 2..3 (4) overlapping exchanges of one refresh token with every interleaving of their NewAccessRequest / NewAccessResponse phases (at most one succeeds).",
+   text="Every history up to the stated depth over <=2 grants (code, hybrid, password, device, OIDC public) in which every refresh token ever issued remains presentable (by owner or foreign client), with revocation and time advance interleaved; model: one use per refresh token, rotation kills presented RT and sibling AT, reuse answers invalid_grant and kills the family, other grants untouched; every token introspected after every step. Plus: a search with JWT access tokens under RS256 (deterministic signatures; tokens minted in the same second differ only in jti), and 2..3 (4) overlapping exchanges of one refresh token with every interleaving of their NewAccessRequest / NewAccessResponse phases (at most one succeeds). A further search covers grants started from a pushed request and from a second presentation of the same request_uri (an independent grant with a family of its own, should it start).",
    note="Bounded by depth (chain length <= depth-1). Where the statement is silent (state after refusing a never-used token) the model adopts the implementation's answer and counts a dont_care."),
  "C08": dict(level="model_checking", engine="HIST", ref="DESIGN.md §5 C08",
    technique="explicit-state BFS over API histories with revocation by owner / foreign / unauthenticated callers and all token_type_hints on tokens in every liveness state; store-dump equality for 'changes nothing'",
-   text="Every history up to the stated depth over <=2 grants where each token ever seen can be revoked by owner, foreign client, a caller failing authentication, or the owner presenting a forged string that carries the token's signature part, with 6 hint values (absent, access_token, refresh_token, garbage, id_token, authorize_code); the verdict is the endpoint's HTTP answer; oracle: owner => token and sibling dead in all later sweeps; foreign => unauthorized_client and byte-identical store dump; unauthenticated => unchanged; already invalid (also: expired) => success and unchanged. Plus: a refresh request validated before and completed after the owner's accepted revocation (of the presented refresh token / of its sibling access token) must not yield live tokens.",
+   text="Every history up to the stated depth over <=2 grants where each token ever seen can be revoked by owner, foreign client, a caller failing authentication, or the owner presenting a forged string that carries the token's signature part, with 6 hint values (absent, access_token, refresh_token, garbage, id_token, authorize_code); the verdict is the endpoint's HTTP answer; oracle: owner => token and sibling dead in all later sweeps; foreign => unauthorized_client and byte-identical store dump; unauthenticated => unchanged; already invalid (also: expired) => success and unchanged. Plus: a refresh request validated before and completed after the owner's accepted revocation (of the presented refresh token / of its sibling access token) must not yield live tokens. A further search (one level shallower) runs with an application revocation handler registered in front of the library's.",
    note="Bounded by depth; 'other tokens of the same grant' after an owner revocation are not pinned by the statement and are adopted from introspection. Known findings: a forged string with a genuine signature part, and an already expired token, revoke the grant (see known_findings.json)."),
  "C09": dict(level="model_checking", engine="HIST", ref="DESIGN.md §5 C09",
    technique="explicit-state BFS over API histories of all grant types; in every reached state the introspection endpoint is queried for every token under a grid of hints, scopes and caller credentials and compared with the model",
-   text="In every state reached by histories up to the stated depth (code, hybrid, password, device, client credentials, OIDC; HMAC and JWT; refresh-token validation on/off; 3 scope strategies) every token ever seen is introspected and active/payload compared with the reference model; refresh tokens are also presented by a foreign client (replay detection must kill the family whoever replays); callers include a public client's id with some secret and the token itself as bearer in other spellings (known finding); plus the stateless JWT validator alone: audience, scope and exp reported for an active token equal the token's claims.",
+   text="In every state reached by histories up to the stated depth (code, hybrid, password, device, client credentials, OIDC; HMAC and JWT; refresh-token validation on/off; 3 scope strategies) every token ever seen is introspected and active/payload compared with the reference model; refresh tokens are also presented by a foreign client (replay detection must kill the family whoever replays); callers include a public client's id with some secret and the token itself as bearer in other spellings (known finding); plus the stateless JWT validator alone: audience, scope and exp reported for an active token equal the token's claims. A further search (one level shallower) runs with refresh tokens that never expire.",
    note="Bounded by depth and alphabets in evidence.bounds; token kind is read from the IntrospectionResponder because the HTTP writer does not render it."),
 }
 
 checks.update({
  "C02": dict(level="exploration", engine="ENUM", ref="DESIGN.md §5 C02",
    technique="exhaustive enumeration of the full product of attempt dimensions at several history positions on the real provider, reference predicate + store-dump equality",
-   text="Every combination of owner client (confidential/public, with/without redirect_uri sent) x flow (code, OIDC code, hybrid, pushed request, pushed request with another registered redirect_uri appended on the front channel) x history position x token strategy x presenter x redirect_uri form x smuggled parameter (incl. partial consent) x code age is executed as authorize -> attempt -> legitimate redemption -> introspection on a fresh provider. Issuance only for owner + string-equal redirect_uri + unexpired; refusals must be invalid_grant for foreign client / different redirect_uri, leave the store dump unchanged and the code redeemable; issued tokens carry exactly the grant.",
+   text="Every combination of owner client (confidential/public, with/without redirect_uri sent) x flow (code, OIDC code, hybrid, pushed request, pushed request with another registered redirect_uri appended on the front channel) x history position x token strategy x presenter x redirect_uri form x smuggled parameter (incl. partial consent) x code age is executed as authorize -> attempt -> legitimate redemption -> introspection on a fresh provider. Issuance only for owner + string-equal redirect_uri + unexpired; refusals must be invalid_grant for foreign client / different redirect_uri, leave the store dump unchanged and the code redeemable; issued tokens carry exactly the grant. Further flow: the authorization requests no scope and no audience and the integrator's token endpoint grants whatever the access request reports as requested (a smuggled scope/audience must not become 'requested').",
    note="Alphabets are those listed in evidence.bounds; code ages are 5 s away from the expiry instant (expiry rounding is C07)."),
  "C05": dict(level="exploration", engine="ENUM", ref="DESIGN.md §5 C05",
    technique="exhaustive enumeration of the full product of grant / request / registration-change / configuration dimensions on the real provider against independent reference strategies",
-   text="Every combination of grant origin x granted scopes x audience x refresh-request parameters x presenter x post-issuance registration change (in place or by replacing the record) x refresh-scope configuration x scope strategy x client refresh grant x prior chain length x {partial consent, replaced registration, refresh grant lost between authorization and redemption} (registration edits include leaving a look-alike string prefix of the removed scope registered) is executed on a fresh provider; refresh honoured only for the owner still covering every granted scope/audience and holding the grant; new tokens' sub/scope/aud equal the original grant; refresh tokens only issued under the stated conditions.",
+   text="Every combination of grant origin x granted scopes x audience x refresh-request parameters x presenter x post-issuance registration change (in place or by replacing the record) x refresh-scope configuration x scope strategy x client refresh grant x prior chain length x {partial consent, replaced registration, refresh grant lost between authorization and redemption} (registration edits include leaving a look-alike string prefix of the removed scope registered) is executed on a fresh provider; refresh honoured only for the owner still covering every granted scope/audience and holding the grant; new tokens' sub/scope/aud equal the original grant; refresh tokens only issued under the stated conditions. Also: a password grant in which the application grants nothing of what was requested, and a registration whose audience list was emptied altogether.",
    note="Scope coverage judged by refstrat.go (independent implementation of the documented strategies)."),
 })
 
@@ -46,7 +46,7 @@ checks.update({
    note="Strings decoding to the genuine bytes are don't-care; entropy is checked structurally (crypto/rand quality assumed)."),
  "C12": dict(level="exploration", engine="ENUM", ref="DESIGN.md §5 C12",
    technique="exhaustive enumeration of all (registered, requested) string pairs over a segment alphabet and of a URL grid against documented semantics (two-sided), plus the full flow x strategy x request-family product on the real provider (one-sided)",
-   text="Part 1 compares the three scope strategies and two audience strategies with an independent transcription of the documentation on every pair of dotted strings over {a,b,ab,*,empty} up to 5 (quick) / 6 (thorough) segments and every pair of a 72-URL grid. Part 2 runs 11 flows x 3 scope strategies x 2 audience strategies x 12 scope families x 10 audience families x {full, partial consent} on a fresh provider: uncovered requests must issue nothing and token scope/audience must stay within the grant, also after one refresh.",
+   text="Part 1 compares the three scope strategies and two audience strategies with an independent transcription of the documentation on every pair of dotted strings over {a,b,ab,*,empty} up to 5 (quick) / 6 (thorough) segments and every pair of a 72-URL grid. Part 2 runs 14 flows x 3 scope strategies x 2 audience strategies x 12 scope families x 10 audience families x {full, partial consent} on a fresh provider: uncovered requests must issue nothing and token scope/audience must stay within the grant, also after one refresh. Two further flows send the case's scope/audience only with the token request (code redemption, device poll) to an integrator that grants what the access request reports as requested: the tokens must carry nothing.",
    note="Documentation-undefined inputs (empty segments absorbed by a trailing wildcard, host case) are don't-care."),
  "C16": dict(level="model_checking", engine="SEQ", ref="DESIGN.md §5 C16",
    technique="exhaustive enumeration (iterative deepening) of all operation sequences up to a depth over <=2 device flows on the real provider with a lock-step model, for the reference store and a contract-following store",
@@ -57,49 +57,49 @@ checks.update({
 checks.update({
  "C17": dict(level="model_checking", engine="SEQ", ref="DESIGN.md §5 C17",
    technique="exhaustive enumeration (iterative deepening) of all operation sequences up to a depth over <=2 pushed requests on the real provider with a lock-step model; every started authorization is carried through redemption and compared with the pushed values",
-   text="Every sequence of push (7 variants incl. failed authentication, header/body client mismatch with and without a request parameter, request containing request_uri) / use(request_uri, right or wrong client, 10 conflicting extra parameters, with a failing DeletePARSession, or spelt with trailing white space) / use(unknown or foreign-prefix URI) / plain authorize / advance up to depth 4 (5 thorough), for enforcement on/off and default/custom prefix. A request_uri starts at most one authorization, only for its client, only before expiry; the resulting redirect, state, response delivery, stored form values, token scope/audience/client, PKCE binding and ID-token nonce equal the pushed values.",
+   text="Every sequence of push (10 variants incl. failed authentication, header/body client mismatch with and without a request parameter, request containing request_uri) / use(request_uri, right or wrong client, 10 conflicting extra parameters, with a failing DeletePARSession, or spelt with trailing white space) / use(unknown or foreign-prefix URI) / plain authorize / advance up to depth 4 (5 thorough), for enforcement on/off and default/custom prefix. A request_uri starts at most one authorization, only for its client, only before expiry; the resulting redirect, state, response delivery, stored form values, token scope/audience/client, PKCE binding and ID-token nonce equal the pushed values. Further push variants: no scope and no audience pushed (the authorization proceeds with none, whatever the query adds), and the client named only in the URL query of the push. An authorization-serving instance composed without the push handler must enforce pushing as well.",
    note="Survival of a request_uri after a refused attempt and parameters that were not pushed at all are not pinned by the statement (recorded as notes)."),
 })
 
 checks.update({
  "C07": dict(level="exploration", engine="ENUM", ref="DESIGN.md §5 C07",
    technique="exhaustive enumeration of credential kind x lifetime source x issue offset x history position x age x exp encoding x session implementation under a virtual clock on the real provider; exhaustive override table",
-   text="27 credential kinds (ID tokens of the code / implicit / hybrid / refresh flows, judged by their exp; code; access tokens from 8 grants incl. JWT; refresh tokens from 3 grants and unlimited; device/user code; request_uri; JWT-bearer and client assertions with int/float/fractional exp; access token used as bearer; tokens after an abandoned refresh/redemption) x 10 lifetime sources (server default, three configured triples, per-client override, session-provided access-token expiry, unlimited refresh tokens alone / under a finite override / under a finite override of the code grant only, finite default with an unlimited per-client refresh-grant override) x 3 (11 thorough) sub-second issue offsets x 3 history positions x 10 (22) ages on both sides of expiry x 2 session implementations: >=2 s after expiry must be refused wherever presented, >=2 s before an advertised expiry must be honoured, advertised lifetime within 1 s of the effective one; GetEffectiveLifespan checked for all 12 fields x 7 grants x 4 token types.",
+   text="27 credential kinds (ID tokens of the code / implicit / hybrid / refresh flows, judged by their exp; code; access tokens from 8 grants incl. JWT; refresh tokens from 3 grants and unlimited; device/user code; request_uri; JWT-bearer and client assertions with int/float/fractional exp; access token used as bearer; tokens after an abandoned refresh/redemption) x 10 lifetime sources (server default, three configured triples, per-client override, session-provided access-token expiry, unlimited refresh tokens alone / under a finite override / under a finite override of the code grant only, finite default with an unlimited per-client refresh-grant override) x 3 (11 thorough) sub-second issue offsets x 3 history positions x 10 (22) ages on both sides of expiry x 2 session implementations: >=2 s after expiry must be refused wherever presented, >=2 s before an advertised expiry must be honoured, advertised lifetime within 1 s of the effective one; GetEffectiveLifespan checked for all 12 fields x 7 grants x 4 token types. Signed OpenID Connect request objects with an exp of their own (int/float/fractional) are a further credential kind, presented at the authorization endpoint.",
    note="+-1 s around expiry is don't-care; the clock is the overlay virtual clock (all time.Now/Since/Until in ory/fosite are rewritten at build time)."),
 })
 
 checks.update({
  "C11": dict(level="exploration", engine="ENUM", ref="DESIGN.md §5 C11",
    technique="exhaustive enumeration of a URI mutation grammar (all compositions up to a depth) x registered sets x response modes x error timings against the real authorization and PAR endpoints; written bytes judged by an independent RFC 3986 splitter",
-   text="For 14 registered-URI sets, every composition of <=2 (quick) / <=3 (thorough; depth 3 under 2 modes x 2 error timings) of 60 mutations of a registered URI is requested under 6 response type/mode combinations and 7 error timings (and through PAR); whenever a Location header or form_post action is written, its target (minus response parameters) must be identical to a registered URI or an http loopback-literal variant with equal host/path/query, absolute and fragment-free; codes never go to plain-http non-local targets; a missing redirect_uri with several registered never redirects.",
+   text="For 15 registered-URI sets, every composition of <=2 (quick) / <=3 (thorough; depth 3 under 2 modes x 2 error timings) of 60 mutations of a registered URI is requested under 6 response type/mode combinations and 7 error timings (and through PAR); whenever a Location header or form_post action is written, its target (minus response parameters) must be identical to a registered URI or an http loopback-literal variant with equal host/path/query, absolute and fragment-free; codes never go to plain-http non-local targets; a missing redirect_uri with several registered never redirects. Also: a registered URI that repeats a query key, and a request pushed by another client presented under this client's client_id (whatever is delivered must go to a URI registered for the client the code/token belongs to).",
    note="Query permutations/re-encodings and scheme case count as identical; percent-decoded-equal loopback paths are don't-care. Known finding: form_post with non-http(s) schemes (see known_findings.json)."),
 })
 
 checks.update({
  "C10": dict(level="exploration", engine="ENUM", ref="DESIGN.md §5 C10",
    technique="exhaustive enumeration of registration x endpoint/grant x credential transport x secret relation (x skip-auth setting) on the real provider with real bcrypt, judged by an independent reference of who is authenticated; proxy-store log and store-dump equality for 'neither issues nor invalidates'",
-   text="14 client registrations (plain with 0/1/2 rotated secrets or only empty rotated slots, public with/without secret hash, confidential with empty hash, OIDC clients for each token_endpoint_auth_method, special characters) x 9 endpoints/grants x 15 transports (basic, post, both, id only, nothing, malformed / unencoded header, private_key_jwt assertion with right/wrong key, assertion+basic, expired / not-yet-valid assertion, split credentials, credentials in the URL query) x 8 secret relations: a request is processed only for a presentation that authenticates the registration; a refusal carries invalid_client or invalid_request; every rejected one writes to no code/token table, leaves the store dump unchanged and a victim token active; public clients never pass client_credentials; only jwt-bearer with the explicit setting runs without client authentication, and then the issued token is not bound to the confidential client of the failed presentation. private_key_jwt clients registered by jwks_uri run against the real JWKS fetcher and cache (in-memory transport): 6 look-alike URI pairs x 6 warm-up histories; an assertion signed with the other client's key is always refused.",
+   text="14 client registrations (plain with 0/1/2 rotated secrets or only empty rotated slots, public with/without secret hash, confidential with empty hash, OIDC clients for each token_endpoint_auth_method, special characters) x 9 endpoints/grants x 15 transports (basic, post, both, id only, nothing, malformed / unencoded header, private_key_jwt assertion with right/wrong key, assertion+basic, expired / not-yet-valid assertion, split credentials, credentials in the URL query) x 8 secret relations: a request is processed only for a presentation that authenticates the registration; a refusal carries invalid_client or invalid_request; every rejected one writes to no code/token table, leaves the store dump unchanged and a victim token active; public clients never pass client_credentials; only jwt-bearer with the explicit setting runs without client authentication, and then the issued token is not bound to the confidential client of the failed presentation. private_key_jwt clients registered by jwks_uri run against the real JWKS fetcher and cache (in-memory transport): 6 look-alike URI pairs x 6 warm-up histories; an assertion signed with the other client's key is always refused. Transports also include: another client authenticating correctly while the client under test is named in the URL query only (pushed-authorization endpoint), and a correctly signed assertion addressed to a proper prefix of the token URL.",
    note="Mixed presentations are don't-care; bcrypt cost 4. Known finding: the PAR endpoint accepts credentials from the URL query string (see known_findings.json)."),
 })
 
 checks.update({
  "C13": dict(level="exploration", engine="ENUM", ref="DESIGN.md §5 C13",
    technique="exhaustive enumeration of five product groups (registration x request) against the real authorization endpoint, one-sided acceptance conditions; issued codes carried to the token endpoint",
-   text="G1 response types (8 registrations x 4 grant sets x public x every ordered list of <=3 tokens incl. duplicates/unknown/empty x openid), G2 response modes, G3 state/nonce lengths around the threshold for two entropy settings, G4 redirect_uri presence x openid x flows x grant sets, G5 request objects (19 variants incl. expired / not-yet-valid objects, which must be refused with an OAuth 2.0 error, and look-alike request_uri strings: registered/other/unknown keys, RS/ES/PS/HS/none, tampered, request_uri registered/unregistered/unfetchable/both x 6 registered algorithms): an accepted request satisfies every condition of the statement; access and ID tokens never appear in the query; state is echoed on every redirect; a client without authorization_code never redeems a code; request-object parameters are honoured only for registered key+algorithm; G2 also through pushed requests (response_mode pushed, or appended to the request_uri leg); G6: request objects verified through jwks_uri with the real fetcher and cache (look-alike URIs of two tenants).",
+   text="G1 response types (8 registrations x 4 grant sets x public x every ordered list of <=3 tokens incl. duplicates/unknown/empty x openid), G2 response modes, G3 state/nonce lengths around the threshold for two entropy settings, G4 redirect_uri presence x openid x flows x grant sets, G5 request objects (19 variants incl. expired / not-yet-valid objects, which must be refused with an OAuth 2.0 error, and look-alike request_uri strings: registered/other/unknown keys, RS/ES/PS/HS/none, tampered, request_uri registered/unregistered/unfetchable/both x 6 registered algorithms): an accepted request satisfies every condition of the statement; access and ID tokens never appear in the query; state is echoed on every redirect; a client without authorization_code never redeems a code; request-object parameters are honoured only for registered key+algorithm; G2 also through pushed requests (response_mode pushed, or appended to the request_uri leg); G6: request objects verified through jwks_uri with the real fetcher and cache (look-alike URIs of two tenants). G2 also with a registered redirect URI that carries query parameters named like response parameters (state, scope): the client must read the request's state from the channel the response was delivered in.",
    note="G7 covers the cross terms of G1-G4 on three registrations. Don't-care: hybrid code+id_token ID token without implicit grant; unsigned request object when no algorithm is registered."),
 })
 
 checks.update({
  "C14": dict(level="exploration", engine="ENUM", ref="DESIGN.md §5 C14",
    technique="exhaustive enumeration of flow x key/algorithm x nonce x auth_time x max_age x prompt x id_token_hint x preset expiry x extra-claims on the real provider; every ID token verified with the public key and recomputed from the same response",
-   text="8 OpenID flows (code, implicit x2, hybrid x3, refresh chains of 3, device) x 7 key/algorithm pairs (ES256/384/512, RS256/384/512, PS256) x nonce x the auth_time/max_age (absent, 0, 300, 1000, 300 as a JSON number inside a signed request object)/prompt/hint/preset-expiry/extras grid: every ID token in any response verifies under the server key, names the client in aud, carries session subject and issuer, echoes the nonce, expires within the configured lifetime (unless preset), and its at_hash / c_hash equal the left half of the alg-selected hash of the access token / code of the same response; refresh drops c_hash; unsatisfied max_age / prompt (incl. multi-valued) / hint, empty subject, openid not requested or requested but not granted, or a past preset expiry issue nothing.",
+   text="8 OpenID flows (code, implicit x2, hybrid x3, refresh chains of 3, device) x 7 key/algorithm pairs (ES256/384/512, RS256/384/512, PS256) x nonce x the auth_time/max_age (absent, 0, 300, 1000, 300 as a JSON number inside a signed request object)/prompt/hint/preset-expiry/extras grid: every ID token in any response verifies under the server key, names the client in aud, carries session subject and issuer, echoes the nonce, expires within the configured lifetime (unless preset), and its at_hash / c_hash equal the left half of the alg-selected hash of the access token / code of the same response; refresh drops c_hash; unsatisfied max_age / prompt (incl. multi-valued) / hint, empty subject, openid not requested or requested but not granted, or a past preset expiry issue nothing. Further flow: the request is pushed (PAR) and the front channel appends contradicting nonce / max_age / prompt; further session variant: the session names an issuer other than the configured default (also on refresh).",
    note="Session alg header is set to the key's algorithm (integrator duty); refreshed ID tokens may omit the nonce (OIDC Core 12.2) but must not change it."),
 })
 
 checks.update({
  "C15": dict(level="model_checking", engine="SCHED+ENUM", ref="DESIGN.md §5 C15",
    technique="stateless depth-first schedule exploration of the real token endpoint under a cooperative scheduler (all interleavings of the storage steps of 2 simultaneous presentations, preemption-bounded for 3), plus exhaustive enumeration of header x key x claim-deviation grids",
-   text="Schedules: 2 and 3 simultaneous presentations of one client assertion / one JWT-bearer assertion; every interleaving at storage-call granularity for 2 threads (unbounded), preemption bound 2 (4 thorough) for 3 threads, and lock granularity with bound 2; on every complete execution at most one presentation of a jti succeeds. Grid: 6 header algorithms x 3 kid x 3 signing keys x 28 single-claim deviations (absent / wrong type / wrong value / boundary times incl. fractional exp) x scope-vs-key-scope x optional-claim configs x 3 replay positions, one-sided against the statement; overlapping presentations at API-phase granularity; client assertions of jwks_uri clients through the real fetcher and cache (look-alike URIs, 6 warm-up histories).",
+   text="Schedules: 2 and 3 simultaneous presentations of one client assertion / one JWT-bearer assertion; every interleaving at storage-call granularity for 2 threads (unbounded), preemption bound 2 (4 thorough) for 3 threads, and lock granularity with bound 2; on every complete execution at most one presentation of a jti succeeds. Grid: 6 header algorithms x 3 kid x 3 signing keys x 28 single-claim deviations (absent / wrong type / wrong value / boundary times incl. fractional exp) x scope-vs-key-scope x optional-claim configs x 3 replay positions, one-sided against the statement; overlapping presentations at API-phase granularity; client assertions of jwks_uri clients through the real fetcher and cache (look-alike URIs, 6 warm-up histories). Registered-algorithm grid: 6 registrations (incl. none = RS256 by default) x 8 header algorithms x kid sent/absent with every signing key in the client's JWKS; claim deviations include empty and prefix audiences, empty iss/sub.",
    note="Scheduling points: storage calls, random reads, lock acquisitions (vsync shim); unknown kid and future iat are don't-care."),
 })
 
@@ -110,14 +110,14 @@ checks.update({
    note="Sentinel answers (not-found / inactive) at Get*/Revoke* calls are another store state, not a failure (don't-care). Record equality ignores session expiry fields. The transactional store is context-sensitive: a write issued during an open transaction with a context that does not carry it survives the rollback."),
  "C20": dict(level="exploration", engine="ENUM+FAULT", ref="DESIGN.md §5 C20",
    technique="exhaustive enumeration of error x hostile text x format x debug x writer with re-parsing of the bytes written; scan of every storage call of every flow for usable secrets; storage-error text injection at every storage call",
-   text="38 errors (all exported RFC errors + a plain Go error) x hint/debug text from 16 hostile fragments (pairs in quick, triples in thorough) x legacy/new format x debug exposure x 9 writers: JSON re-parsed, redirects re-parsed (no injected parameter, state round-trips, no CR/LF in headers), form_post pages tokenised (only the expected inputs, no injected element), status matches code, debug detail only when enabled, no-store/no-cache everywhere. Storage: 17 flows (incl. every kind of credential presented in every credential slot of the token, introspection and revocation endpoints) x HMAC/JWT — no key or stored form value equals or contains a client secret, password, PKCE verifier, assertion or complete live code/token. A recognisable storage error text injected at every storage call of 20 flows never reaches the client and the answer carries an RFC error code; the same for the transport error of a failed request_uri fetch; manipulated codes / refresh tokens / device codes are refused with an OAuth 2.0 error and a 4xx status; a failing ID-token signing-key provider is answered as server_error.",
+   text="38 errors (all exported RFC errors + a plain Go error) x hint/debug text from 16 hostile fragments (pairs in quick, triples in thorough) x legacy/new format x debug exposure x 9 writers: JSON re-parsed, redirects re-parsed (no injected parameter, state round-trips, no CR/LF in headers), form_post pages tokenised (only the expected inputs, no injected element), status matches code, debug detail only when enabled, no-store/no-cache everywhere. Storage: 17 flows (incl. every kind of credential presented in every credential slot of the token, introspection and revocation endpoints) x HMAC/JWT — no key or stored form value equals or contains a client secret, password, PKCE verifier, assertion or complete live code/token. A recognisable storage error text injected at every storage call of 20 flows never reaches the client and the answer carries an RFC error code; the same for the transport error of a failed request_uri fetch; manipulated codes / refresh tokens / device codes are refused with an OAuth 2.0 error and a 4xx status; a failing ID-token signing-key provider is answered as server_error. Cache headers: all 16 success/error writers on a response writer on which the application already set Cache-Control / Pragma / Expires (4 presets) must still leave marked no-store / no-cache.",
    note="Known findings: OpenID Connect sessions keyed by the complete authorization code (storage contract). The user password necessarily reaches Authenticate."),
 })
 
 checks.update({
  "C19": dict(level="model_checking", engine="SCHED", ref="DESIGN.md §5 C19",
    technique="stateless depth-first schedule exploration of the real provider + reference store under a cooperative scheduler with iterative preemption bounding; vector-clock happens-before race detection over shim lock edges and overlay access hooks; brute-force linearizability of store-operation triples",
-   text="26 API scenarios (redeem||redeem, OIDC device poll||poll, polls after an approval recorded with a fresh session for three session types, introspect||introspect for three session types, first use of every Config getter, refresh||refresh, refresh||revoke||introspect, refresh||revoke, redeem||introspect||authorize, poll||poll, device-auth||poll, PAR-use||PAR-use, authorize||authorize and token||token on a default-constructed and a populated Config, issue||introspect, PAR-push||device-auth, issue||device-auth, mint||mint||mint) at lock granularity (preemption bound 2/1 quick, 3/2 thorough) and at storage-call granularity (all interleavings where feasible, else bound 4/6); plus every multiset of 3 store operations per table (332 triples) from a populated state. Every complete execution: no deadlock, no panic, no unordered conflicting access on instrumented fields, no lock still held after every request returned (leak), no scenario in which nothing ever succeeds (vacuity guard), no duplicate token value, no inactive token handed out without a concurrent invalidation, and for store triples results + final dump equal some sequential permutation. State-based part: no request writes into the spare capacity of a slice of the shared Config.",
+   text="26 API scenarios (redeem||redeem, OIDC device poll||poll, polls after an approval recorded with a fresh session for three session types, introspect||introspect for three session types, first use of every Config getter, refresh||refresh, refresh||revoke||introspect, refresh||revoke, redeem||introspect||authorize, poll||poll, device-auth||poll, PAR-use||PAR-use, authorize||authorize and token||token on a default-constructed and a populated Config, issue||introspect, PAR-push||device-auth, issue||device-auth, mint||mint||mint) at lock granularity (preemption bound 2/1 quick, 3/2 thorough) and at storage-call granularity (all interleavings where feasible, else bound 4/6); plus every multiset of 3 store operations per table (332 triples) from a populated state. Every complete execution: no deadlock, no panic, no unordered conflicting access on instrumented fields, no lock still held after every request returned (leak), no scenario in which nothing ever succeeds (vacuity guard), no duplicate token value, no inactive token handed out without a concurrent invalidation, and for store triples results + final dump equal some sequential permutation. State-based part: no request writes into the spare capacity of a slice of the shared Config. Scenario i18n-errors: two refused requests answered in two languages through the one shared message catalog.",
    note="Races are decided for fields used inside pointer-receiver methods of ory/fosite types (a field of a stateful standard-library type such as hash.Hash counts as written on every use; map fields are additionally keyed by the map itself, also in value-receiver methods), for *url.URL variables whose RawQuery/Fragment a function assigns, and for package-level variables of slice/array/map/basic types (byte buffers count as written when handed to a call, also through a local slice of them); other memory, and the lazily created JWKS fetcher, are not observed. 2-3 goroutines."),
 })
 
